@@ -30,8 +30,8 @@ ASSUMPTIONS = [
 
 
 @st.composite
-def cases(draw):
-    b = draw(history_program(max_steps=16, flagged_views=draw(st.integers(0, 2)) == 0))
+def cases(draw, tier="quick"):
+    b = draw(history_program(max_steps=16 if tier == "quick" else 30, flagged_views=draw(st.integers(0, 2)) == 0))
     return {"prog": b.prog}
 
 
@@ -99,7 +99,7 @@ def check_case(case, rec=None):
     return mm
 
 
-N = {"quick": 300, "thorough": 5000}
+N = {"quick": 300, "thorough": 2500}
 
 
 def shard_plan(tier):
@@ -108,7 +108,7 @@ def shard_plan(tier):
 
 def run_shard(shard, seed, tier):
     rec = Recorder()
-    viol = drive(prop=PROPERTY, name="history", strategy=cases(), check_case=lambda c: check_case(c, rec), rec=rec,
+    viol = drive(prop=PROPERTY, name="history", strategy=cases(tier), check_case=lambda c: check_case(c, rec), rec=rec,
                  seed=seed, max_examples=N[tier])
     out = rec.result()
     out["violations"] = viol
